@@ -134,6 +134,7 @@ def model_knows(name):
 
 
 def python_knows(name):
+    import css_parser.codec  # noqa: F401
     try:
         n = codecs.lookup(name).name
     except Exception:  # noqa
@@ -141,11 +142,21 @@ def python_knows(name):
     return {"iso8859-1": "latin-1"}.get(n, n)
 
 
+def is_css_name(name):
+    import css_parser.codec  # noqa: F401  (registers the codec in this process)
+    try:
+        return codecs.lookup(name).name == "css"
+    except Exception:  # noqa
+        return False
+
+
 def same_codec_knowledge(name):
-    if name is None or name == "css":
+    if name is None:
         return True
     if not all(32 <= ord(ch) < 127 for ch in name):
         return False          # codecs.lookup raises UnicodeError / ValueError for such names: outside the model
+    if python_knows(name) == "css":
+        return True           # every spelling of the codec's own name: modelled by Codec.is_css
     return model_knows(name) == python_knows(name)
 
 
@@ -216,7 +227,7 @@ def oracle(case, one, inc, typ):
                     cause_tag(case, whole)))
     if dec and case.get("errors", "strict") == "strict":
         used = ref_used_encoding(whole, case.get("enc"), case.get("force", True))
-        if used == "css":
+        if is_css_name(used):
             exp = ["ERR", "Value"]
         else:
             try:
@@ -284,7 +295,7 @@ def impl_inverse(case):
 
 # ------------------------------------------------------------------------------------------------ case generation
 NAMES = ["utf-8", "UTF_8_SIG", "utf-8-sig", "latin-1", "iso-8859-1", "ascii", "utf-16", "utf-16-le", "utf-16-be",
-         "utf-32", "utf-32-le", "utf-32-be", "x", "css", "", "Utf-8"]
+         "utf-32", "utf-32-le", "utf-32-be", "x", "css", "", "Utf-8", "CSS", ";css", "c ss"]
 REAL = ["utf-8", "utf-8-sig", "latin-1", "ascii", "utf-16", "utf-16-le", "utf-16-be", "utf-32", "utf-32-le", "utf-32-be"]
 BODIES = ["", "a", "g\xfc", "€{}", "a\U00010000", ";a{}"]
 BOMS = [b"", b"\xef\xbb\xbf", b"\xff\xfe", b"\xfe\xff", b"\xff\xfe\x00\x00", b"\x00\x00\xfe\xff"]
@@ -376,7 +387,7 @@ def gen_cases(ctx, thorough):
             plist.append(tuple(range(1, n)))          # byte by byte
             for p in plist:
                 cases.append({"k": "D", "enc": enc, "force": force, "chunks": [c.hex() for c in split(b, p)]})
-    ekw = [None, "utf-8", "utf-8-sig", "UTF_8_SIG", "latin-1", "ascii", "utf-16", "utf-16-be", "utf-32", "x", "css"]
+    ekw = [None, "utf-8", "utf-8-sig", "UTF_8_SIG", "latin-1", "ascii", "utf-16", "utf-16-be", "utf-32", "x", "css", "Css"]
     for t in enc_inputs():
         for enc in ekw:
             if enc is not None and rng.random() < (0.3 if thorough else 0.6):
@@ -614,7 +625,7 @@ def model_scope(c):
         m = RULE.match("".join(c["chunks"]))
         if m:
             names.append(m.group(1))
-    return all(same_codec_knowledge(n) for n in names) and c.get("enc") != "css"
+    return all(same_codec_knowledge(n) for n in names) and not (c.get("enc") is not None and is_css_name(c["enc"]))
 
 
 def hunt(ctx, budget):
@@ -713,7 +724,7 @@ TRUSTED = [
     "coq/theories/CodecConcrete.v: Gallina utf-8/-sig, utf-16*, utf-32*, latin-1, ascii codecs (strict) used only to RUN the "
     "model against the implementation; not part of any theorem except the non-vacuity examples",
     "correspondence harness harness/props/c14.py (generators, canonicalisation: exception class -> enum, error timing inside "
-    "a run not compared); Tokenizer.lower (per-character str.lower table) for encoding.lower()",
+    "a run not compared); CodecPyLib.lower (per-character str.lower table generated from the interpreter, Gen/PyTables.v) for encoding.lower()",
     "modelled by hand, not verified: decode, encode, IncrementalDecoder.decode, IncrementalEncoder.encode (Codec.v)",
 ]
 ASSUME = [
